@@ -140,6 +140,20 @@ impl OpsWorld {
                 env.ledger().set_sequence_number(cur + pu32(t[1]));
                 ("ok".into(), String::new())
             }
+            "probe_extra" => {
+                // probe_extra <addresses> <tokens>: every exported function of the contract that the model does not know is
+                // called without any authorisation (none exists on the unchanged tree apart from the `todo!()` stubs of the
+                // token); whatever it does, the modelled state must not change — the following queries show it
+                let known: [&str; 5] = ["__constructor", "is_operator", "add_operator", "remove_operator", "execute"];
+                let addrs: Vec<Address> = t[1].split(',').filter(|x| !x.is_empty() && *x != "-").map(|x| Addr::parse(x).sdk(&env)).collect();
+                let toks: Vec<(Address, i128)> = t[2].split(',').filter(|x| !x.is_empty() && *x != "-").map(|x| (Addr::parse(x).sdk(&env), 1i128)).collect();
+                let mut names = vec![];
+                if let Some(c) = self.ops.clone() {
+                    names = probe_unknown_entry_points(&env, &c, "/repo/contracts/axelar-operators/src/contract.rs", &known, &addrs, &toks);
+                }
+                
+                ("ok".into(), format!("probed={}", names.join(",")))
+            }
             "op.new" => {
                 let addr = Addr::parse(t[1]).sdk(&env);
                 let owner = Addr::parse(t[2]).sdk(&env);
